@@ -402,6 +402,14 @@ def discharge_maypanic(A, bb, path, args, t):
                 src = src[1][1]
             if src[0] == "call" and G.cn(src[1]) == "core::option::Option::ok_or":
                 src = src[2][0]
+            if src[0] == "sub" and len(src) == 4:
+                # a half of split_at / a sub-slice with linear bounds
+                try:
+                    d_ = G.lin(a0[2][0][3] if G.strip(a0[2][0])[0] == "sub" else src[3]).add(G.lin(a0[2][0][2] if G.strip(a0[2][0])[0] == "sub" else src[2]), -1)
+                    if d_.is_const() and d_.c == n:
+                        return "the sub-slice has exactly %d bytes" % n
+                except Exception:
+                    pass
             if src[0] == "call" and G.cn(src[1]) == "core::slice::get":
                 rg = src[2][1]
                 if rg[0] == "aggr" and rg[1][1].endswith("::Range") and rg[2][0][0] == "c" and rg[2][1][0] == "c" and rg[2][1][1] - rg[2][0][1] == n:
